@@ -199,7 +199,7 @@ func main() {
 		if len(chunks[k]) == 0 {
 			return
 		}
-		ans, cr := core.RunWorker("", nil, 90*time.Second, self, []string{"worker"}, chunks[k])
+		ans, cr := core.RunWorker("", nil, 45*time.Second, self, []string{"worker"}, chunks[k])
 		mu.Lock()
 		for id, a := range ans {
 			answers[id] = a
@@ -212,6 +212,7 @@ func main() {
 		fb, _ := os.ReadFile(p.b)
 		return map[string]string{"a" + filepath.Ext(p.a): string(fa), "b" + filepath.Ext(p.b): string(fb), "pair.txt": p.id + "\n"}
 	}
+	loopConfirmed, loopAlso := false, 0
 	for _, cr := range crashes {
 		p, ok := byID[cr.ID]
 		if !ok {
@@ -219,17 +220,23 @@ func main() {
 			continue
 		}
 		if cr.Killed {
-			// watchdog: re-run alone with a longer limit before calling it a loop
-			ans, cr2 := core.RunWorker("", nil, 4*time.Minute, self, []string{"worker"}, []map[string]any{{"id": cr.ID, "mode": "compare", "a": p.a, "b": p.b}})
+			// watchdog: the first incident is re-run alone with a longer limit before it is called a
+			// loop; once a loop is confirmed, further expiries are counted, not re-run
+			if loopConfirmed {
+				loopAlso++
+				continue
+			}
+			ans, cr2 := core.RunWorker("", nil, 3*time.Minute, self, []string{"worker"}, []map[string]any{{"id": cr.ID, "mode": "compare", "a": p.a, "b": p.b}})
 			if len(cr2) == 0 {
 				answers[cr.ID] = ans[cr.ID]
 				continue
 			}
-			if cr2[0].Killed && strings.Contains(cr2[0].Output, "compareSchema") {
+			if cr2[0].Killed && (strings.Contains(cr2[0].Output, "compareSchema") || strings.Contains(cr2[0].Output, "commands/diff.")) {
 				f := files(p)
 				f["goroutines.txt"] = cr2[0].Output
 				c.Eval(p.class)
-				c.Violation("C12/loop/"+p.id, "diff.Compare did not terminate (live recursion through compareSchema in the goroutine dump)", f)
+				loopConfirmed = true
+				c.Violation("C12/loop@"+site(cr2[0].Output), "diff.Compare did not terminate within 3 minutes on "+p.id+" (a call that normally takes milliseconds; the goroutine dump shows it inside the diff package)", f)
 				continue
 			}
 			if cr2[0].Killed {
